@@ -91,6 +91,12 @@ func CheckRuleTable(r *evid.Run, eng *Engine) {
 				if !isNoop || len(ri.Categories) != 0 {
 					r.Violate("rule-table/"+v+"/"+ri.ID+"/deprecated", fmt.Sprintf("%s: rule %s is deprecated=%v with categories %v; documented categories %v", v, ri.ID, ri.Deprecated, ri.Categories, doc), ri)
 				}
+				wantRepl, _ := DocReplacements(v, ri.ID)
+				wantRepl = append([]string(nil), wantRepl...)
+				sort.Strings(wantRepl)
+				if strings.Join(wantRepl, ",") != strings.Join(ri.Replacements, ",") {
+					r.Violate("rule-table/"+v+"/"+ri.ID+"/replacements", fmt.Sprintf("%s: deprecated rule %s is replaced by %v, documented: %v", v, ri.ID, ri.Replacements, wantRepl), ri)
+				}
 				continue
 			}
 			want := append([]string(nil), doc...)
@@ -170,9 +176,13 @@ func run(r *evid.Run) {
 		"default-value table = per scalar kind + enum a row of fields whose defaults step through the kind's boundary values (32/64-bit min/max and their neighbours, neighbours beyond 2^53 / 2^24, inf, nan) upwards and downwards, on every standard message and as extensions; " +
 		"aliased enum numbers (2 and 3 names) deleted with every subset of the names reserved x number reserved or not; type-name changes on singular / repeated / oneof-member / map-value / extension / delimited (field and file default) message and enum fields; " +
 		"file syntax over {proto2, proto3, edition 2023, no declaration}; " +
+		"ignore configurations = per operator of a fixed list and edited file one case x 3 versions x use in {all four categories, the narrowest ID list incl. deprecated IDs} x ignore_only maps of 1 or 2 entries over the key alphabet {expected rules, their categories, the deprecated IDs they replace, one unrelated rule} and the path alphabet {here, elsewhere} (+ ignore: [elsewhere]), both textual orders, x every rotation of buf's ID maps (map seeds); " +
+		"many-files modules = n small files each with one of six documented edits plus unrelated additions, n from one below the switch to parallel chunks (8 files per unit of parallelism) through every remainder to one past the next multiple and 16p+1, parallelism p in {2,3,4} (thorough: 5, 8) and the machine's own, two package layouts; " +
 		"a case is distinct and non-trivial when the reference model expects at least one annotation for it (key = instance id / surrounding)")
 	r.Assume("expectations claim only what a rule's Purpose text and the rule documentation state; edits whose status the docs leave open (repeated<->map for the wire cardinality rules, STRING_PIECE->STRING, json_name side effect of a rename, proto2 <-> no syntax declaration, explicit zero default <-> no default) carry no expectation")
 	r.Assume("an enum value is 'deleted without reserving the name' when its own name is not reserved in the new enum, also when an alias of the same number did get reserved")
+	r.Assume("a rule is active for a file unless the file is under an `ignore` path or under an `ignore_only` path of an entry standing for the rule: the rule ID itself, a category containing it, or a deprecated ID the rule replaces (a deprecated ID written in use / ignore_only stands for its documented replacements); entries for other IDs or other paths do not affect it")
+	r.Assume("ignore configurations are only applied to edits inside one file that exists in both versions (buf also matches ignore paths against the previous file of a moved / deleted element)")
 	r.Assume("category membership is the documented rule matrix transcribed in ref.go (docMembershipV2 + per-version deltas); buf's own tables are compared against it (oracle rule-table)")
 	r.Assume("positions are checked by line (the renderer puts every element on its own line); columns are not checked")
 	r.Assume("annotation 'names the element' = message contains the element's number and/or name and its parent's short name, double-quoted, as listed per operator")
@@ -327,14 +337,42 @@ func run(r *evid.Run) {
 			mu.Unlock()
 		})
 	}
+	phase := os.Getenv("VERIF_C03_PHASES") // debugging aid: comma list of main,many-files,ignore-config
+	if phase != "" {
+		r.Incomplete("filtered run: VERIF_C03_PHASES=" + phase)
+	}
+	want := func(p string) bool { return phase == "" || contains(strings.Split(phase, ","), p) }
+	t0 := time.Now()
+	// schema-size dimension (changes the process-global parallelism of buf: runs on its own)
+	if want("many-files") && len(onlyOps) == 0 {
+		RunManyFiles(r, eng, full)
+	}
+	r.Set("phase_seconds_many_files", int(time.Since(t0).Seconds()))
+	t0 = time.Now()
 	// one base at a time (bounds memory: every instance holds its own copy of the new schema)
-	process(SyntaxInstances())
+	ignoreCandidates := map[string][]Instance{}
+	var baseOrder []string
+	if want("main") {
+		process(SyntaxInstances())
+	}
 	for _, b := range Bases() {
 		if r.Expired() {
 			break
 		}
-		process(Instances(b, full))
+		instances := Instances(b, full)
+		ignoreCandidates[b.Name] = IgnoreCandidates(instances)
+		baseOrder = append(baseOrder, b.Name)
+		if want("main") {
+			process(instances)
+		}
 	}
+	r.Set("phase_seconds_main", int(time.Since(t0).Seconds()))
+	t0 = time.Now()
+	// configuration dimension: ignore / ignore_only entries for other paths and other IDs x map iteration orders
+	if want("ignore-config") && len(onlyOps) == 0 && !r.Expired() {
+		RunIgnoreConfigs(r, eng, ignoreCandidates, baseOrder, full)
+	}
+	r.Set("phase_seconds_ignore_config", int(time.Since(t0).Seconds()))
 	r.Set("instances", totalInstances)
 	r.Set("work_items", totalItems)
 
